@@ -96,6 +96,7 @@ def default_knobs(rng, **over):
         triggers=rng.choice([False, False, True]),
         regex_boost=False,
         decimal_floats=rng.random() < 0.1,
+        deep_instance=False,
     )
     k.update(over)
     return k
@@ -194,6 +195,20 @@ class WorldGen(object):
             # (1 / 1.0 / true, 0 / 0.0 / false): whatever a validator remembers about one must not leak to the other
             j = rng.randrange(len(instances))
             instances.append(self.twin(instances[j]))
+        if k.get("deep_instance") and not k.get("decimal_floats"):
+            # stack exhaustion as a fault: an instance nested so deeply that a recursive schema dies with
+            # RecursionError somewhere inside the library (kept as a compact spec; built iteratively at run time)
+            unit = self.directed(root, docs, root, 6)
+            path = []
+            node = unit
+            while isinstance(node, (dict, list)) and node:
+                key = sorted(node)[0] if isinstance(node, dict) else 0
+                path.append(key)
+                node = node[key]
+            if path:
+                n = rng.randint(40, 250)
+                n = max(10, min(n, 700 // len(path)))
+                instances.append({"$deep": {"unit": unit, "path": path, "n": n}})
         if self.formats:
             # strings that make the raising checkers raise, at the places the schemas look at
             zrich = [{"a": "z", "zz": ["z", 5], "b": {"zz": "Zz", "a": []}},
